@@ -5,6 +5,8 @@
 #include "harness.hpp"
 #include "strmcase.hpp"
 #include "rulegen.hpp"
+#include <algorithm>
+#include <iterator>
 
 using namespace vh;
 
@@ -27,7 +29,46 @@ static bool parse_ev(const char *p, Ev3 &e) {
 	e.dur = dur; e.oid = oid; return true;
 }
 
+// ---- mode 3: the command line tool on several files.  Metamorphic: spreading the events of one calendar over
+// several files -- an identical copy of an event may come again in a later file -- must not change what
+// `echse unroll` delivers for the single calendar (which the other modes and C01/C02 judge).
+static std::string g_echse;
+static const char *FILESEP = "=====FILE=====\n";
+static bool run_cli(const std::vector<std::string> &files, const std::string &dir, std::vector<std::string> &lines, std::string &err) {
+	std::string cmd = "cd '" + dir + "' && timeout 20 '" + g_echse + "' unroll";
+	for (size_t i = 0; i < files.size(); i++) { std::string fn = dir + "/f" + std::to_string(i) + ".ics"; FILE *f = fopen(fn.c_str(), "w"); if (!f) { err = "cannot write"; return false; } fwrite(files[i].data(), 1, files[i].size(), f); fclose(f); cmd += " f" + std::to_string(i) + ".ics"; }
+	cmd += " 2>&1; echo EXIT=$?";
+	FILE *p = popen(cmd.c_str(), "r"); if (!p) { err = "popen"; return false; }
+	char b[4096]; std::string out; size_t n; while ((n = fread(b, 1, sizeof b, p)) > 0) out.append(b, n); pclose(p);
+	std::stringstream ss(out); std::string ln; int ex = -1; lines.clear();
+	while (std::getline(ss, ln)) { if (ln.compare(0, 5, "EXIT=") == 0) ex = atoi(ln.c_str() + 5); else lines.push_back(ln); }
+	if (ex != 0) { err = "echse unroll exited with " + std::to_string(ex) + ": " + out.substr(0, 300); return false; }
+	return true;
+}
+static Verdict judge_files(const Case &c) {
+	std::vector<std::string> files; { size_t p = 0; for (;;) { size_t e = c.ics.find(FILESEP, p); files.push_back(c.ics.substr(p, e == std::string::npos ? std::string::npos : e - p)); if (e == std::string::npos) break; p = e + strlen(FILESEP); } }
+	if (files.size() < 2) return Verdict::inconclusive("bad files case");
+	// the single calendar: every distinct VEVENT once, in order of first appearance
+	std::vector<std::string> evs; for (auto &f : files) { size_t p = 0; while ((p = f.find("BEGIN:VEVENT", p)) != std::string::npos) { size_t e = f.find("END:VEVENT\n", p); if (e == std::string::npos) break; std::string ev = f.substr(p, e + 11 - p); if (std::find(evs.begin(), evs.end(), ev) == evs.end()) evs.push_back(ev); p = e; } }
+	std::string body; for (auto &e : evs) body += e;
+	char tmpl[] = "/tmp/c03f-XXXXXX"; const char *base = getenv("TMPDIR"); std::string t = std::string(base && *base ? base : "/tmp") + "/c03f-XXXXXX"; std::vector<char> tb(t.begin(), t.end()); tb.push_back(0); (void)tmpl;
+	if (!mkdtemp(tb.data())) return Verdict::inconclusive("no temp dir");
+	std::string dir = tb.data(); std::vector<std::string> one, many; std::string err;
+	bool ok1 = run_cli({sc::vcal(body)}, dir, one, err); std::string err2; bool ok2 = ok1 && run_cli(files, dir, many, err2);
+	{ std::string rm = "rm -rf '" + dir + "'"; (void)!system(rm.c_str()); }
+	if (!ok1) return Verdict::inconclusive("single calendar: " + err);
+	if (!ok2) return Verdict::fail("several files: " + err2);
+	for (size_t i = 1; i < many.size(); i++) if (many[i].substr(0, many[i].find('\t')) < many[i - 1].substr(0, many[i - 1].find('\t'))) return Verdict::fail("several files: occurrence `" + many[i] + "' is delivered after `" + many[i - 1] + "'");
+	std::vector<std::string> a = one, b = many; std::sort(a.begin(), a.end()); std::sort(b.begin(), b.end());
+	if (a != b) { std::vector<std::string> miss, extra; std::set_difference(a.begin(), a.end(), b.begin(), b.end(), std::back_inserter(miss)); std::set_difference(b.begin(), b.end(), a.begin(), a.end(), std::back_inserter(extra));
+		return Verdict::fail("the same events spread over " + std::to_string(files.size()) + " files deliver " + std::to_string(many.size()) + " occurrences instead of " + std::to_string(one.size()) + (miss.empty() ? "" : "; missing e.g. `" + miss[0] + "'") + (extra.empty() ? "" : "; extra e.g. `" + extra[0] + "'")); }
+	Verdict v; bool copy = false; { std::set<std::string> seen; for (auto &f : files) { size_t p = 0; while ((p = f.find("\nUID:", p)) != std::string::npos) { size_t e = f.find('\n', p + 1); if (!seen.insert(f.substr(p, e - p)).second) copy = true; p = e; } } }
+	v.nontrivial = evs.size() >= 2 && copy; v.classes.push_back("files/" + std::to_string(files.size())); if (copy) v.classes.push_back("files/event-repeated-in-later-file");
+	return v;
+}
+
 static Verdict judge(const Case &c) {
+	if (c.mode == 3) return judge_files(c);
 	Verdict v;
 	SbxResult r = sandbox([&](Out &o) { sut_buf_t b = {nullptr, 0, 0}; sut_mux_session(c.ics.data(), c.ics.size(), c.ops.c_str(), c.cap, c.mode, &b); if (b.p) o.put(std::string(b.p, b.n)); }, 20.0);
 	if (r.st == SbxResult::TIMEOUT) return Verdict::inconclusive("budget");
@@ -87,10 +128,10 @@ static Verdict judge(const Case &c) {
 	return v;
 }
 
-Verdict prop_replay(Ctx &, const std::string &t) { Case c; if (!cparse(t, c)) return Verdict::inconclusive("bad case"); Verdict v = judge(c); if (v.k == Verdict::DISCARD) return Verdict::pass(); return v; }
+Verdict prop_replay(Ctx &cx, const std::string &t) { g_echse = cx.opt["echse"]; Case c; if (!cparse(t, c)) return Verdict::inconclusive("bad case"); Verdict v = judge(c); if (v.k == Verdict::DISCARD) return Verdict::pass(); return v; }
 
 void prop_gen(Ctx &c) {
-	bool survey = c.getoptl("survey", 0) != 0;
+	bool survey = c.getoptl("survey", 0) != 0; g_echse = c.opt["echse"];
 	int maxops = (int)c.getoptl("maxops", 120);
 	std::string params = "seed=" + std::to_string(c.seed) + " max_success=" + std::to_string(c.cases) + " max_size=" + std::to_string(c.size) + " max_discard_ratio=20";
 	setenv("RC_PARAMS", params.c_str(), 1);
@@ -121,6 +162,16 @@ void prop_gen(Ctx &c) {
 				body += sc::vevent(uid, start, false, l);
 			}
 			cs.ics = sc::vcal(body);
+			if (std::get<8>(t) == 10 || (std::get<8>(t) == 9 && nsel % 2)) {
+				// command line surface: finite events with UIDs of their own, spread over 2..3 files, some repeated identically in a later file
+				std::vector<std::string> fb(2 + (size_t)nsel % 2); size_t m = std::min<size_t>(std::min(n, evs.size()), 12);
+				for (size_t i = 0; i < m; i++) { auto &e = evs[i]; int kind = std::get<0>(e); int iv = std::get<2>(e), cnt = std::get<3>(e); auto &ofs = std::get<4>(e); int f = std::get<5>(e);
+					std::vector<std::string> l; if (kind < 3) { std::string s2 = "RDATE:"; size_t k = 1 + (size_t)cnt % 8; for (size_t j = 0; j < k; j++) { if (j) s2 += ","; s2 += civil::fmt_ical(base + (int64_t)ofs[j] * 86400000LL, false); } l.push_back(s2); } else l.push_back(std::string("RRULE:FREQ=") + F[f] + ";INTERVAL=" + std::to_string(iv) + ";COUNT=" + std::to_string(cnt));
+					std::string ev = sc::vevent("f" + std::to_string(i) + "@c03", base + (int64_t)std::get<6>(e) * 86400000LL, false, l);
+					size_t w = (size_t)(ofs[0] + (int)i) % fb.size(); fb[w] += ev; if (ofs[1] % 3 == 0 && w + 1 < fb.size()) fb[w + 1] += ev; }
+				cs.ics.clear(); for (size_t k = 0; k < fb.size(); k++) { if (k) cs.ics += FILESEP; cs.ics += sc::vcal(fb[k]); }
+				cs.ops = "k"; cs.mode = 3; cs.cap = 400; return cs;
+			}
 			auto &o = std::get<6>(t); size_t len = 1 + (size_t)std::get<7>(t) * (size_t)maxops / 100;
 			for (size_t j = 0; j < len && j < o.size(); j++) cs.ops += o[j] == 0 ? 'k' : 'p';
 			cs.ops += "kpppkp";
